@@ -110,21 +110,31 @@ class GenTheory(Theory):
         if isinstance(e.op, ast.Mod) and a.sort == 'Str' and isinstance(e.left, ast.Constant):
             # "..%s.." % value / % (v1, v2): %s of a str is the str itself, of an int its decimal text
             vals = b.meta['items'] if b.sort == 'Tuple' else [b]
-            parts = e.left.value.split('%s')
-            if len(parts) != len(vals) + 1 or '%' in ''.join(parts):
-                raise OutOfSubset('format string', e)
-            out = []
-            for i, p_ in enumerate(parts):
-                if p_:
-                    out.append(smt_str(p_))
-                if i < len(vals):
-                    v = vals[i]
-                    if v.sort == 'Str':
+            import re as _re
+            toks = _re.split(r'(%s|%d|%%)', e.left.value)
+            out, vi = [], 0
+            for t in toks:
+                if t in ('%s', '%d'):
+                    if vi >= len(vals):
+                        raise OutOfSubset('format string arity', e)
+                    v = vals[vi]
+                    vi += 1
+                    if v.sort == 'Str' and t == '%s':
                         out.append(v.e)
-                    elif v.sort == 'Int':
+                    elif v.sort in ('Int', 'StrOfInt'):
                         out.append('(str.from_int %s)' % v.e)
                     else:
-                        raise OutOfSubset('%%s of %s' % v.sort, e)
+                        raise OutOfSubset('%s of %s' % (t, v.sort), e)
+                elif t == '%%':
+                    out.append(smt_str('%'))
+                elif t:
+                    if '%' in t:
+                        raise OutOfSubset('format directive', e)
+                    out.append(smt_str(t))
+            if vi != len(vals):
+                raise OutOfSubset('format string arity', e)
+            if not out:
+                out = ['""']
             return SV('Str', out[0] if len(out) == 1 else '(str.++ %s)' % ' '.join(out))
         return None
 
